@@ -44,6 +44,9 @@ def make_pool(pbc, rng):
     shots = [sg.gen_shot(pbc, rng, flat=rng.random() < 0.8)[0] for _ in range(3)]
     cfgs = [{}, rng.choice([{'cMinimumVelocity': 1500.0}, {'cMaximumDrop': -2.0}, {'max_calc_step_size_feet': 1.0}, {'cMaxIterations': 2}])]
     calcs = [pbc.Calculator(_config=c) for c in cfgs]
+    for calc, c in zip(calcs, cfgs):
+        # the configuration the calculator was BUILT with: what its results may depend on (not whatever it holds later)
+        calc._verif_cfg0 = pbc.interface_config.create_interface_config(c)
     return shots, calcs
 
 
@@ -59,10 +62,10 @@ def one_op(pbc, rng, shots, calcs, corr_fire=None, corr_zero=None, violations=No
         R, step, extra = rng.choice([300.0, 900.0, 9000.0]), rng.choice([100.0, 150.0]), rng.random() < 0.3
         out = sg.py_fire(pbc, calc, shot, R, step, extra, 0.0)
         if corr_fire is not None:
-            corr_fire.add(sg.fire_line(pbc, calc, shot, R, step, extra, 0.0), out, {'op': 'fire', 'shot': i, 'calc': j})
+            corr_fire.add(sg.fire_line(pbc, calc, shot, R, step, extra, 0.0, calc._verif_cfg0), out, {'op': 'fire', 'shot': i, 'calc': j})
     elif r < 0.65:
         D = rng.choice([100.0, 300.0, 9000.0])
-        line = f'zero {sg.enc_config(calc._calc._config)} {sg.enc_shot(pbc, shot)} {f2b(U.Foot(D) >> U.Foot)}'
+        line = f'zero {sg.enc_config(calc._verif_cfg0)} {sg.enc_shot(pbc, shot)} {f2b(U.Foot(D) >> U.Foot)}'
         out = trajcorr.zero_answer(pbc, calc, shot, D)
         if corr_zero is not None:
             corr_zero.add(line, out, {'op': 'zero', 'shot': i, 'calc': j})
@@ -84,6 +87,14 @@ def one_op(pbc, rng, shots, calcs, corr_fire=None, corr_zero=None, violations=No
             out = 'ok f%d f%d' % (f2b(ds.begin.distance.raw_value), f2b(ds.end.distance.raw_value))
         except (pbc.RangeError, ArithmeticError) as e:
             out = 'raise:' + type(e).__name__
+    elif r < 0.95:
+        # the user changes the conditions of an existing shot (same rifle and ammunition): a new atmosphere or new winds
+        if rng.random() < 0.6:
+            shot.atmo = pbc.Atmo(U.Foot(rng.uniform(0, 9000)), U.hPa(rng.uniform(650, 1050)), U.Celsius(rng.uniform(-25, 40)), rng.uniform(0, 1))
+        else:
+            shot.winds = [sg.gen_wind(pbc, rng) for _ in range(rng.randint(0, 3))]
+        out = 'new-conditions'
+        before = None
     else:
         shots[i] = sg.gen_shot(pbc, rng, flat=True)[0]
         out = 'new-shot'
@@ -140,6 +151,8 @@ def search(chk, broken):
     # 1. repeat / interleave / fresh vs long-used, incl. raising calls (python only, bit-exact)
     n = 4 if (chk.tier == 'quick' and not broken) else 150
     for _ in range(n):
+        if chk.over():
+            break
         shots, calcs = make_pool(pbc, rng)
         seed = rng.randrange(10 ** 9)
         # the same operation sequence on a long-used pool and, op by op, on fresh calculators
@@ -149,6 +162,8 @@ def search(chk, broken):
         rng2 = random.Random(chk.rng.random())
         evals += 10
     for t in range(3 if (chk.tier == 'quick' and not broken) else 40):
+        if chk.over():
+            break
         seed = rng.randrange(10 ** 9)
         a = thread_script(pbc, seed, 8)
         b = thread_script(pbc, seed, 8)
